@@ -520,8 +520,36 @@ func DrawRecipe(t *rapid.T, maxLen int, label string) Recipe {
 	}
 	if rapid.IntRange(0, 4).Draw(t, label+".edged") == 0 {
 		rc.Edge = rapid.IntRange(1, NEdges-1).Draw(t, label+".edge")
+		// half of the decorated recipes get a decoration that matters for their kind
+		if rel := edgesFor(rc.Kind); len(rel) > 0 && rapid.Bool().Draw(t, label+".edgerel") {
+			rc.Edge = rapid.SampledFrom(rel).Draw(t, label+".edgek")
+		}
 	}
 	return rc
+}
+
+// edgesFor lists the edge decorations that the detectors for this kind of data look at.
+func edgesFor(kind int) []int {
+	switch kind {
+	case KText, KXML, KRecords:
+		return []int{1, 2, 3, 12}
+	case KUTF8:
+		return []int{7, 8, 12, 15, 16, 17}
+	case KExeX86, KExeARM:
+		return []int{4, 5, 6}
+	case KRuns, KZeros, KSame:
+		return []int{9, 10, 13, 14}
+	}
+	return nil
+}
+
+// FixEdge re-draws the decoration after a check replaced the kind of a recipe (detector-affine data).
+func FixEdge(t *rapid.T, rc *Recipe, label string) {
+	if rc.Edge != 0 {
+		if rel := edgesFor(rc.Kind); len(rel) > 0 && rapid.Bool().Draw(t, label+".edgerel2") {
+			rc.Edge = rapid.SampledFrom(rel).Draw(t, label+".edgek2")
+		}
+	}
 }
 
 // DrawLen draws a length biased to small values and boundaries.
